@@ -531,6 +531,9 @@ func (fa *FA) Sym(v ssa.Value) *Sym {
 		return s
 	}
 	if fa.inProg[v] {
+		if _, isPhi := v.(*ssa.Phi); isPhi {
+			return fa.atom("phi", v, "phi:"+fa.uniq(v)) // a cycle through a loop phi: the phi is its own atom
+		}
 		return fa.atom("other", v, "rec:"+fa.uniq(v))
 	}
 	fa.inProg[v] = true
